@@ -28,6 +28,7 @@ type mNode struct {
 type mDim struct {
 	Kind string `json:"kind"` // fixed | sym | none
 	Size int64  `json:"size"`
+	Den  string `json:"den"` // ONNX denotation of the dimension (DATA_BATCH, ...): carries no meaning for the signature
 }
 
 type mInput struct {
@@ -204,6 +205,7 @@ func buildModel(m mModel) ([]byte, error) {
 			case "zero", "symempty":
 				dims[i] = DimSpec{Enc: d.Kind}
 			}
+			dims[i].Den = d.Den
 		}
 		dt := in.Dt
 		if dt == "" {
